@@ -26,13 +26,14 @@ theorem afterBody_frags (frags : List (Frag P)) (s : St P) :
 including the first `replace`: the error is the injected one, and every path is as before or is a
 temp name that does not exist. -/
 theorem single_fault_restores (hord : ∀ l, (ord l).Perm l) (s : St P) (h : s.txn = none)
-    (frags : List (Frag P)) (hg : GoodFrags [] frags) (dry : Bool) (k : Nat) (f : Fault)
+    (frags : List (Frag P)) (hg : GoodFrags [] frags) (hok : TmpOK tmp (frags.map (·.path)))
+    (dry : Bool) (k : Nat) (f : Fault)
     (hk : k < 5 * frags.length ∨ (k = 5 * frags.length ∧ dry = false ∧ frags ≠ [])) :
     (save tmp ord (single (s.clock + k) f) none dry frags s).2 = some f.err ∧
     ∀ q, (save tmp ord (single (s.clock + k) f) none dry frags s).1.fs q = s.fs q ∨
       (q ∈ tmps tmp frags ∧ (save tmp ord (single (s.clock + k) f) none dry frags s).1.fs q = none) := by
   simp only [save, ← paths_map_tmp]
-  have hd := frags_dich tmp (single (s.clock + k) f) frags { s with txn := some [] } [] rfl hg
+  have hd := frags_dich tmp (single (s.clock + k) f) frags { s with txn := some [] } [] rfl hg (by simpa using hok)
   rw [← afterBody_frags] at hd
   simp only [List.nil_append] at hd
   rcases hk with hk | ⟨hk, hdry, hne⟩
@@ -70,7 +71,7 @@ theorem success_spec (hord : ∀ l, (ord l).Perm l) (s : St P) (h : s.txn = none
     ∀ q, (save tmp ord σ none false frags s).1.fs q = committed tmp frags s.fs q := by
   simp only [save] at hs ⊢
   rw [transaction_phases tmp ord σ false _ s h] at hs ⊢
-  have hd := frags_dich tmp σ frags { s with txn := some [] } [] rfl hg
+  have hd := frags_dich tmp σ frags { s with txn := some [] } [] rfl hg (by simpa using hok)
   rw [← afterBody_frags] at hd
   simp only [List.nil_append] at hd
   rcases hd with ⟨he, _, _, ht, hf⟩ | ⟨n, f', he, _⟩
@@ -142,7 +143,7 @@ theorem noFault_succeeds (hord : ∀ l, (ord l).Perm l) (s : St P) (h : s.txn = 
     (save tmp ord noFault none dry frags s).2 = none := by
   simp only [save]
   rw [transaction_phases tmp ord noFault dry _ s h]
-  have hd := frags_dich tmp noFault frags { s with txn := some [] } [] rfl hg
+  have hd := frags_dich tmp noFault frags { s with txn := some [] } [] rfl hg (by simpa using hok)
   rw [← afterBody_frags] at hd
   simp only [List.nil_append] at hd
   rcases hd with ⟨he, _, _, ht, hf⟩ | ⟨n, f', _, _, _, hσ, _⟩
@@ -194,7 +195,7 @@ theorem never_torn' (hord : ∀ l, (ord l).Perm l) (s : St P) (h : s.txn = none)
     obtain ⟨a, ha, rfl⟩ := List.mem_map.mp hm
     obtain ⟨fr, hfr, hfe⟩ := List.mem_map.mp (h2 a ha)
     exact hq (by rw [← hfe]; exact List.mem_map_of_mem hfr)
-  have hd := frags_dich tmp σ frags { s with txn := some [] } [] rfl hg
+  have hd := frags_dich tmp σ frags { s with txn := some [] } [] rfl hg (by simpa using hok)
   rw [← afterBody_frags] at hd
   simp only [List.nil_append] at hd
   rcases hd with ⟨he, _, _, ht, hf⟩ | ⟨n, f', he, _⟩
